@@ -22,7 +22,9 @@ EXTENDS Integers, Sequences, FiniteSets, TLC
 
 CONSTANTS NStmt,      \* statements 1..NStmt are written in order
           ErrAt,      \* subset of 1..NStmt answered with an error line
-          StatusAt    \* subset of 1..NStmt whose ack is preceded by a status line
+          StatusAt,   \* subset of 1..NStmt whose ack is preceded by a status line
+          LossAllowed,         \* the connection may drop once, at any moment after connect()
+          WaitWithoutListener  \* TRUE: the code before fix F20 -- _wait_for_acknowledgment() waits on the event alone
 
 VARIABLES
   phase,        \* "m110a" | "m110b" | "ready" : start-up progress of connect()
@@ -34,49 +36,50 @@ VARIABLES
   acked,        \* set of statements whose acknowledgement the reader has consumed
   rets,         \* sequence of [s, res] : returns of write()
   got,          \* statements the device received, in order
-  stale         \* a handshake ok was consumed after the first write() began
-vars == <<phase, cpc, k, ack, deverr, priq, wire, replies, nhs, acked, rets, got, stale>>
+  stale,        \* a handshake ok was consumed after the first write() began
+  listening     \* printcore's reader thread is alive (it ends on the read error / EOF of a dropped connection)
+vars == <<phase, cpc, k, ack, deverr, priq, wire, replies, nhs, acked, rets, got, stale, listening>>
 
 HS == 0   \* a handshake line (M110)
 
 Init ==
   /\ phase = "m110a" /\ cpc = "idle" /\ k = 0 /\ ack = FALSE /\ deverr = FALSE
   /\ priq = <<>> /\ wire = <<HS>> /\ replies = <<>> /\ nhs = 1 /\ acked = {} /\ rets = <<>> /\ got = <<>>
-  /\ stale = FALSE
+  /\ stale = FALSE /\ listening = TRUE
 
 \* print thread of the empty start-up job: after the first M110 is acknowledged the job ends, second M110 goes out
 StartupEnds ==
   /\ phase = "m110b0"
   /\ phase' = "ready" /\ wire' = Append(wire, HS) /\ nhs' = nhs + 1
-  /\ UNCHANGED <<cpc, k, ack, deverr, priq, replies, acked, rets, got, stale>>
+  /\ UNCHANGED <<cpc, k, ack, deverr, priq, replies, acked, rets, got, stale, listening>>
 
 \* write(): clear the event, queue the statement
 WriteCall ==
   /\ phase = "ready" /\ cpc = "idle" /\ k < NStmt
   /\ k' = k + 1 /\ cpc' = "wait" /\ ack' = FALSE
   /\ priq' = Append(priq, k + 1)
-  /\ UNCHANGED <<phase, deverr, wire, replies, nhs, acked, rets, got, stale>>
+  /\ UNCHANGED <<phase, deverr, wire, replies, nhs, acked, rets, got, stale, listening>>
 
 \* sender thread puts the statement on the wire
 SenderSends ==
   /\ priq # <<>>
   /\ wire' = Append(wire, Head(priq)) /\ priq' = Tail(priq)
-  /\ UNCHANGED <<phase, cpc, k, ack, deverr, replies, nhs, acked, rets, got, stale>>
+  /\ UNCHANGED <<phase, cpc, k, ack, deverr, replies, nhs, acked, rets, got, stale, listening>>
 
 \* device: one line in, its replies out
 Device ==
-  /\ wire # <<>>
+  /\ wire # <<>> /\ listening
   /\ LET s == Head(wire) IN
      /\ wire' = Tail(wire)
      /\ got' = IF s = HS THEN got ELSE Append(got, s)
      /\ replies' = replies \o
           (IF s # HS /\ s \in StatusAt THEN <<[t |-> "status", s |-> s]>> ELSE <<>>) \o
           <<[t |-> IF s # HS /\ s \in ErrAt THEN "error" ELSE "ok", s |-> s]>>
-  /\ UNCHANGED <<phase, cpc, k, ack, deverr, priq, nhs, acked, rets, stale>>
+  /\ UNCHANGED <<phase, cpc, k, ack, deverr, priq, nhs, acked, rets, stale, listening>>
 
 \* reader thread: one reply line through recvcb
 Reader ==
-  /\ replies # <<>>
+  /\ replies # <<>> /\ listening
   /\ LET r == Head(replies) IN
      /\ replies' = Tail(replies)
      /\ IF r.t = "status" THEN UNCHANGED <<ack, deverr, acked, nhs, phase, stale>>
@@ -86,29 +89,40 @@ Reader ==
              /\ nhs' = IF r.s = HS THEN nhs - 1 ELSE nhs
              /\ phase' = IF r.s = HS /\ phase = "m110a" THEN "m110b0" ELSE phase
              /\ stale' = (stale \/ (r.s = HS /\ k >= 1))
-  /\ UNCHANGED <<cpc, k, priq, wire, rets, got>>
+  /\ UNCHANGED <<cpc, k, priq, wire, rets, got, listening>>
 
-\* write() returns once the event is set; a stored device error is raised
+\* the connection drops: what is on its way is gone, the reader thread ends on the read error and reports it through
+\* errorcb (_on_printrun_error: the error is stored and the event is set)
+Lose ==
+  /\ LossAllowed /\ listening /\ phase = "ready"
+  /\ listening' = FALSE /\ replies' = <<>> /\ wire' = <<>>
+  /\ deverr' = TRUE /\ ack' = TRUE
+  /\ UNCHANGED <<phase, cpc, k, priq, nhs, acked, rets, got, stale>>
+
+\* write() returns once the event is set -- or, after fix F20, once nobody listens any more; a stored device error is raised
 WriteReturn ==
-  /\ cpc = "wait" /\ ack
-  /\ rets' = Append(rets, [s |-> k, res |-> IF deverr THEN "DeviceError" ELSE "ok"])
+  /\ cpc = "wait" /\ (ack \/ (~WaitWithoutListener /\ ~listening))
+  /\ rets' = Append(rets, [s |-> k, res |-> IF deverr \/ ~ack THEN "DeviceError" ELSE "ok", lost |-> ~listening])
   /\ deverr' = FALSE
   /\ cpc' = "idle"
-  /\ UNCHANGED <<phase, k, ack, priq, wire, replies, nhs, acked, got, stale>>
+  /\ UNCHANGED <<phase, k, ack, priq, wire, replies, nhs, acked, got, stale, listening>>
 
-Next == StartupEnds \/ WriteCall \/ SenderSends \/ Device \/ Reader \/ WriteReturn
-Spec == Init /\ [][Next]_vars /\ WF_vars(Next)
+Next == StartupEnds \/ WriteCall \/ SenderSends \/ Device \/ Reader \/ WriteReturn \/ Lose
+\* the drop itself is not forced to happen
+Spec == Init /\ [][Next]_vars /\ WF_vars(StartupEnds \/ WriteCall \/ SenderSends \/ Device \/ Reader \/ WriteReturn)
 
 -----------------------------------------------------------------------------
 Front(s) == SubSeq(s, 1, Len(s) - 1)
 \* C16: statements reach the device in call order, exactly once
 Order == \A i \in DOMAIN got : got[i] = i
 \* C16: write(s) does not return before the device acknowledged that very statement ...
-SyncStrict == \A i \in DOMAIN rets : rets[i].s \in acked                 \* expected to FAIL (F12)
+SyncStrict == \A i \in DOMAIN rets : (rets[i].res = "ok" => rets[i].s \in acked)   \* expected to FAIL (F12)
 \* ... which holds in every behaviour in which no handshake ok arrives after the first write() began
-SyncModuloF12 == stale \/ \A i \in DOMAIN rets : rets[i].s \in acked
+SyncModuloF12 == stale \/ \A i \in DOMAIN rets : (rets[i].res = "ok" => rets[i].s \in acked)
 \* C16: an error reply is raised to the caller of the statement it answers
-ErrorsSurface == stale \/ \A i \in DOMAIN rets : (rets[i].res = "DeviceError") <=> (rets[i].s \in ErrAt)
+ErrorsSurface == stale \/ \A i \in DOMAIN rets : ~rets[i].lost => ((rets[i].res = "DeviceError") <=> (rets[i].s \in ErrAt))
+\* C16, connection loss at any position: a write() that returns after the drop raises
+LossSurfaces == \A i \in DOMAIN rets : rets[i].lost => rets[i].res = "DeviceError"
 \* every write() eventually returns
 AllReturn == <>(Len(rets) = NStmt)
 =============================================================================
